@@ -29,6 +29,11 @@ def gen_effects(rng, c, rate=0.25):
                     ek = rng.choice(["F", "F", "L", "D", "R", "S"])
                     lst.append((ek, rng.randrange(c.nsig) if ek != "S" else rng.choice([0, 1, 2, 3, 4, 90, 91])))
                 eff[(i, k)] = lst
+    # hooks that ask the chart for its current state while they run (a handler may do that)
+    for i in range(1, c.n + 1):
+        for s, r in c.react[i].items():
+            if r[0] == "H" and rng.random() < 0.25:
+                eff.setdefault((i, "u%d" % s), []).append(("S", 90))
     return eff
 
 
@@ -76,6 +81,7 @@ def run_real(c, eff, cap, ops, spied=True, instrumented=True, want_spy=False):
 
         def dispatch(self, e):
             self._vp_disp.append(e)
+            self._vp_marks.append(len(self._vp_log))
             return super().dispatch(e)
 
         def next_rtc(self):
@@ -90,6 +96,9 @@ def run_real(c, eff, cap, ops, spied=True, instrumented=True, want_spy=False):
     hsm._vp_budget = 10 ** 9
     uid = [0]
     log = []
+    hsm._vp_log = log
+    hsm._vp_marks = []
+    hsm._vp_info = []
 
     def mkev(sig):
         e = Event(signal="E%d" % sig, payload=uid[0])
@@ -116,6 +125,8 @@ def run_real(c, eff, cap, ops, spied=True, instrumented=True, want_spy=False):
     out, spies = [], []
     for o, a in ops:
         del log[:]
+        del hsm._vp_marks[:]
+        ndisp = len(hsm._vp_disp)
         hsm._vp_calls = 0
         ret = "-"
         try:
@@ -143,6 +154,7 @@ def run_real(c, eff, cap, ops, spied=True, instrumented=True, want_spy=False):
             shown = charts.fmt_log(log) if o in (0, 8) else ""
             out.append("ok ret=%s cur=%d q=%s d=%s disp=%s log=%s" % (
                 ret, cur, evs(hsm.queue), evs(hsm.defer_queue), evs(hsm._vp_disp), shown))
+            hsm._vp_info.append({"log": list(log), "marks": list(hsm._vp_marks), "disp": [evs([e]) for e in hsm._vp_disp[ndisp:]]})
             if want_spy:
                 spies.append({"rtc": hsm.spy_rtc() if instrumented else None,
                               "full": hsm.spy() if instrumented else None,
@@ -214,6 +226,8 @@ def explore(run, focus, n_random):
         if real != model:
             run.disagree("queued chart: queue/defer/dispatched/call log after every op", cj, model, real)
         interesting = queue_oracle(run, focus, c, eff, cap, ops, real, cj)
+        if focus in ("C14", "C15"):
+            deque_oracle(run, c, eff, cap, ops, real, hsm, cj)
         run.case(cj, nontrivial=interesting)
 
 
@@ -295,6 +309,76 @@ def queue_oracle(run, focus, c, eff, cap, ops, real, cj):
                     run.violate("C16/queued-lifo-full", "post_lifo(E%d) on %s (cap %d) gave %s" % (a, prev["q"], cap, r["q"]), upto(cj, idx))
         prev = r
     return hit
+
+
+def deque_oracle(run, c, eff, cap, ops, real, hsm, cj):
+    """C14: the dispatch order and the queue after every op must be those of a double-ended queue driven by
+    the same operations (client ops and the handlers' own posts, taken from the handlers' invocation record)"""
+    q, d = [], []
+    uid = [0]
+
+    def push_back(l, x):
+        l.append(x)
+        if len(l) > cap:
+            del l[0]
+
+    def push_front(l, x):
+        l.insert(0, x)
+        if len(l) > cap:
+            del l[-1]
+
+    def mk(sig):
+        e = "%d.%d" % (sig, uid[0])
+        uid[0] += 1
+        return e
+
+    def apply_calls(calls):
+        for i, k in calls:
+            for ek, a in eff.get((i, k), ()):
+                if ek == "F":
+                    push_back(q, mk(a))
+                elif ek == "L":
+                    push_front(q, mk(a))
+                elif ek == "D":
+                    push_back(d, mk(a))
+                elif ek == "R":
+                    if d:
+                        push_back(q, d.pop(0))
+    info = getattr(hsm, "_vp_info", [])
+    for idx, (o, a) in enumerate(ops):
+        if idx >= len(info) or idx >= len(real) or parse(real[idx]) is None:
+            return
+        r = parse(real[idx])
+        log, marks, disp = info[idx]["log"], info[idx]["marks"], info[idx]["disp"]
+        if o == 4:
+            push_back(q, mk(a))
+        elif o == 5:
+            push_front(q, mk(a))
+        elif o == 6:
+            push_back(d, mk(a))
+        elif o == 7:
+            if d:
+                push_back(q, d.pop(0))
+        elif o == 0:
+            apply_calls(log)
+        else:
+            bounds = marks + [len(log)]
+            want_disp = []
+            for k in range(len(marks)):
+                if not q:
+                    run.violate("C14/dispatch-from-empty-deque", "an event was dispatched although the deque model is empty", upto(cj, idx))
+                    return
+                want_disp.append(q.pop(0))
+                apply_calls(log[bounds[k]:bounds[k + 1]])
+            if want_disp != disp:
+                run.violate("C14/dispatch-order", "%s dispatched %s; a double-ended queue driven by the same operations gives %s"
+                            % ("complete_circuit" if o == 9 else "next_rtc", disp, want_disp), upto(cj, idx))
+                return
+        if r["q"] != q or r["d"] != d:
+            run.violate("C14/queue-differs-from-deque", "after op %s the queue is %s / deferred %s; the deque model has %s / %s"
+                        % ((o, a), r["q"], r["d"], q, d), upto(cj, idx))
+            return
+    run.count("deque replay")
 
 
 def upto(cj, idx):
